@@ -2,8 +2,8 @@
    wf_pil, is accepted by the designer's loader, and constraint generation then returns arrays or
    reports over-constraint. *)
 From Coq Require Import List String Ascii Arith Bool ZArith.
-From PC Require Import Base.Sexp Base.Codes Comp.Syntax Comp.Compile Comp.WfPil Design.Designer Design.CrossProofs
-  Sys.System Sys.PrefixProofs Sys.LoadWf Sys.SysWfPil.
+From PC Require Import Base.Sexp Base.Codes Comp.Syntax Comp.Compile Comp.WfPil Design.Designer Design.CrossProofs Design.Results Design.ResultsProofs
+  Design.Loaded Design.SeedTotal Design.SysFinish Finish.Apply Sys.System Sys.PrefixProofs Sys.LoadWf Sys.SysWfPil.
 Import ListNotations.
 Local Open Scope string_scope.
 
@@ -23,3 +23,21 @@ Theorem compiled_system_designs fs includes ctr basename args lines ctr' :
   (design_arrays lines false = DOver \/ exists e w s, design_arrays lines false = DOk e w s).
 Proof. intros H N VT. destruct (compiled_system_wf_pil _ _ _ _ _ _ _ H) as [o [L [E WF]]]. pose proof (WF (N o L)) as W.
   split; [exact W|]. split; [apply (wf_pil_loads lines W VT) | apply (wf_pil_designs lines W VT)]. Qed.
+
+(* the whole chain for a compiled (nested) system: compile -> load in the designer -> arrays -> any fitting string ->
+   records -> finishing the whole system object succeeds *)
+Theorem compiled_system_end_to_end fs includes ctr basename args lines ctr' :
+  compile_top fs includes ctr basename args [] = OK (lines, ctr') ->
+  (forall o, load_file fs includes 12 ctr basename args "" "." = OK (o, ctr') -> names_ok 12 o) ->
+  (forall n k len, In (PSeq n k len) lines -> valid_template k = true) ->
+  exists o p lay g, load_file fs includes 12 ctr basename args "" "." = OK (o, ctr') /\ load_spec lines pspec0 = OK p /\ seed p false = OK (lay, g) /\
+    (get_constraints p false = DOver \/
+     exists e w s, get_constraints p false = DOk e w s /\
+       forall nts, fits nts e w ->
+         exists a recs, process_results p lay nts = OK a /\ output_records p a = OK recs /\
+           (NoDup (map fst recs) -> exists f, apply_obj 12 (table_of recs) o = OK f)).
+Proof. intros H N VT. destruct (compiled_system_wf_pil _ _ _ _ _ _ _ H) as [o [L [E WF]]]. pose proof (WF (N o L)) as W.
+  destruct (wf_pil_loads lines W VT) as [p LOAD]. destruct (seed_total lines p LOAD) as [g SEED].
+  exists o, p, (build_layout p false), g. split; [exact L | split; [exact LOAD | split; [exact SEED|]]].
+  destruct (loaded_total lines p _ g LOAD SEED) as [O|[e [w [s A]]]]; [left; exact O|]. right. exists e, w, s. split; [exact A|].
+  intros nts F. subst lines. apply (system_design_finishes o p _ g e w s nts (proj1 (load_file_sys_wf fs includes 12 _ _ _ _ _ _ _ L)) LOAD SEED A F). Qed.
